@@ -185,10 +185,10 @@ class Parser:
             for depend in menu_options["depends_on"]:
                 expr = self.parse_expression(depend)
                 menunode.dep = self.kconfig._make_and(menunode.dep, expr)
-        if menu_options["visible_if"]:  # visible if
+        for visible_if in menu_options["visible_if"]:  # visible if (several lines add up, like depends on)
             menunode.visibility = self.kconfig._make_and(
                 menunode.visibility,
-                self.parse_expression(menu_options["visible_if"][0]),
+                self.parse_expression(visible_if),
             )
 
         self.kconfig.menus.append(menunode)
